@@ -10,7 +10,8 @@
 (* pre-state, and where no chaining / random choice is involved the two observable projections must be EQUAL.       *)
 (* On top of conformance the stated property is evaluated on the observed values (BAD, named):                      *)
 (*   the call terminates; index in range; time is a number, >= 0, < duration (duration > 0); blend in [0, 1];       *)
-(*   global timers in [0, duration); bone 0's linear track: key value at key times, between the two keys otherwise.  *)
+(*   global timers in [0, duration); track values (linear on the animation time, linear on global sequence 0, step):  *)
+(*   the key's value at key times (step: the earlier key's value always), between the two keys otherwise.              *)
 (* The machine followed is the code of today (Dev = AsCoded minus the deviations whose finding is marked fixed); what the    *)
 (* as-coded deviations produce is accepted as explained and reported under the deviation's name.                     *)
 EXTENDS AnimMgr, Json, IOUtils, TLC, TLCExt
@@ -32,17 +33,27 @@ Matches(S, o) == /\ PubMatches(S, o)
 
 \* ---- the property, on observed values ----------------------------------------------------------------------------
 KeyIdx(t) == IF t >= KeyT[4] THEN 4 ELSE CHOOSE i \in 1..3 : KeyT[i] <= t /\ t < KeyT[i + 1]
-TrackWhy(S, o) ==
-  IF S.cur.idx = NONE \/ o.time = NAN \/ o.time < 0 \/ S.bl # <<1, 1>> THEN ""        \* (blended values: not judged)
-  ELSE LET i == KeyIdx(o.time) IN
-       IF i = 4 THEN (IF o.tx = KeyV[4] * 1000 THEN "" ELSE "track-last-key")
-       ELSE IF o.time = KeyT[i] THEN (IF o.tx = KeyV[i] * 1000 THEN "" ELSE "track-key-value")
-       ELSE IF o.tx < Min2(KeyV[i], KeyV[i + 1]) * 1000 \/ o.tx > Max2(KeyV[i], KeyV[i + 1]) * 1000 THEN "track-not-between"
+\* v = the logged value * 1000 of a track with the keys above evaluated at time t; step = interpolation type 0
+KeyWhy(t, v, step, tag) ==
+  IF t = NAN \/ t < 0 THEN ""
+  ELSE LET i == KeyIdx(t) IN
+       IF i = 4 THEN (IF v = KeyV[4] * 1000 THEN "" ELSE "track-last-key" \o tag)
+       ELSE IF t = KeyT[i] \/ step THEN (IF v = KeyV[i] * 1000 THEN "" ELSE "track-key-value" \o tag)
+       ELSE IF v < Min2(KeyV[i], KeyV[i + 1]) * 1000 \/ v > Max2(KeyV[i], KeyV[i + 1]) * 1000 THEN "track-not-between" \o tag
        ELSE ""
+First(a, b, c) == IF a # "" THEN a ELSE IF b # "" THEN b ELSE c
+TrackWhy(S, o) ==
+  IF S.cur.idx = NONE \/ S.bl # <<1, 1>> THEN ""                    \* (no animation: defaults; blended values: not judged)
+  ELSE First(KeyWhy(o.time, o.tx, FALSE, ""),
+             KeyWhy(IF Len(S.gd) > 0 THEN o.gt[1] ELSE o.time, o.gx, FALSE, ":global"),   \* global sequence 0 drives bone 1 when it exists
+             KeyWhy(o.time, o.sx, TRUE, ":step"))
+LerpOk(t, v) ==
+  IF t = NAN \/ t < 0 \/ t >= KeyT[4] THEN TRUE
+  ELSE LET i == KeyIdx(t)  w == KeyT[i + 1] - KeyT[i] IN
+       Abs(v * w - (KeyV[i] * 1000 * w + (KeyV[i + 1] - KeyV[i]) * 1000 * (t - KeyT[i]))) <= 2 * w
 TrackDrift(S, o) ==          \* exact linear interpolation (a refinement the property does not demand)
-  IF S.cur.idx = NONE \/ o.time = NAN \/ o.time < 0 \/ S.bl # <<1, 1>> \/ o.time >= KeyT[4] THEN TRUE
-  ELSE LET i == KeyIdx(o.time)  w == KeyT[i + 1] - KeyT[i] IN
-       Abs(o.tx * w - (KeyV[i] * 1000 * w + (KeyV[i + 1] - KeyV[i]) * 1000 * (o.time - KeyT[i]))) <= 2 * w
+  IF S.cur.idx = NONE \/ S.bl # <<1, 1>> THEN TRUE
+  ELSE LerpOk(o.time, o.tx) /\ LerpOk(IF Len(S.gd) > 0 THEN o.gt[1] ELSE o.time, o.gx)
 ObsWhy(pre, S, o) ==
   LET tab == S.seqs IN
   IF o.idx # NONE /\ (o.idx < 0 \/ o.idx >= Len(tab)) THEN "index-range"
